@@ -668,7 +668,7 @@ def main(chk):
         plans = [('TRUE', 1, 3, 'FALSE', (1, 2)), ('TRUE', 1, 5, 'FALSE', (1,)), ('FALSE', 1, 5, 'FALSE', (1,))]
     else:
         plans = [('TRUE', 1, 5, 'FALSE', (1, 2)), ('TRUE', 1, 6, 'FALSE', (1,)), ('TRUE', 2, 3, 'TRUE', (1,)),
-                 ('TRUE', 1, 4, 'TRUE', (1, 2)), ('FALSE', 1, 5, 'TRUE', (1,)), ('FALSE', 2, 3, 'TRUE', (1,))]
+                 ('FALSE', 1, 5, 'TRUE', (1,)), ('FALSE', 2, 3, 'TRUE', (1,))]
     total, all_failures, dumps, counts = 0, [], [], {}
     leaky_caught = 0
     for n, (ht, maxv, depth, rich, data) in enumerate(plans):
